@@ -46,6 +46,16 @@ fn check(l: &Labels, ev: &mut Ev, s: &[u8], enumerated: bool) {
 
 pub fn run(ctx: &Ctx, ev: &mut Ev) {
     let l = labels();
+    if ctx.mode == Mode::Miri {
+        // dedicated small workload for the UB interpreter: labels, near misses, paddings, over-long inputs
+        let mut r = ctx.rng(133);
+        for i in 0..(if ctx.thorough() { 400 } else { 30 }) {
+            let mut m = l.list[r.below(l.list.len())].clone();
+            match i % 6 { 0 => {} 1 => { if !m.is_empty() { let p = r.below(m.len()); m[p] = *r.pick(&[0u8, 0x20, 0x41, 0x80, 0xFF, b'-']); } } 2 => { let p = r.below(m.len() + 1); m.insert(p, *r.pick(&[b' ', b'x', 0x0B, 0x00])); } 3 => { let mut v = vec![b' ', b'\t']; v.extend_from_slice(&m); v.push(b'\n'); m = v; } 4 => { m = m.to_ascii_uppercase(); } _ => { while m.len() < 18 + r.below(6) { m.push(b'a'); } } }
+            check(&l, ev, &m, false);
+        }
+        return;
+    }
     let th = ctx.thorough();
     let tiny = !ctx.native();
     let labs = l.list.clone();
